@@ -2,6 +2,7 @@
 From Model Require Import Engine.
 From Spec Require Import Sem FindSpec.
 From Proofs Require Import RefineBase Refine Attempt FindCorrect Total.
+From Proofs Require TotalRec.
 
 (* The specification is total on call-free patterns: nullable loop bodies, nested unbounded
    loops and zero-width anchors under `at least 0` included (an iteration that consumed nothing is
@@ -19,9 +20,42 @@ Theorem C10_find_terminates :
 Proof. exact find_terminates_lemma. Qed.
 Print Assumptions C10_find_terminates.
 
+(* With recursion: a call is GUARDED when, inside the subroutine's body, it sits after something all of
+   whose outcomes consume input ([consumes]); a recursive call then starts strictly further in the
+   text than the call it belongs to.  On every pattern whose calls go to defined subroutines with
+   guarded bodies, the specification is total - at every state of every text.  With
+   C09_find_returns_when_defined this gives termination of the VM for guarded recursion. *)
+Theorem C10_spec_total_guarded_recursion :
+  forall text start defs,
+  (forall t b p, defs t = Some (b, p) -> p = PNil /\ TotalRec.guarded text start defs b /\ TotalRec.callok defs b) ->
+  forall r, TotalRec.callok defs r -> forall s, fst s <= length text -> exists l, outs text start defs r s l.
+Proof. exact TotalRec.outs_total_guarded_lemma. Qed.
+Print Assumptions C10_spec_total_guarded_recursion.
+
 (* non-vacuity: at least 0 (maybe 'a') — a nullable body under an unbounded loop — on "aa" *)
 Definition ex10 : rx :=
   XSeq (XLoop 1 0 (-1) false [] (XLoop 0 0 1 false [] (XAtom (IMatchLit false false [97]%N)))) XEps.
 Example C10_witness : simple ex10 /\ loop_ok ex10 /\
   exists M, find_matches 200 (compile ex10 0) [97; 97]%N true 0 0 0 = SOk M /\ length M = 1.
 Proof. split; [cbn; auto|]. split; [cbn; intuition discriminate|]. vm_compute. eexists; split; reflexivity. Qed.
+
+(* non-vacuity of the recursion theorem: {'a' maybe s 'b'} = s 'd' - the call of s sits after 'a',
+   which consumes - satisfies its hypotheses on every text *)
+Definition ex10_body : rx :=
+  XSeq (XAtom (IMatchLit false false [97]%N))
+  (XSeq (XLoop 0 0 1 false [] (XCall [115]%N 0))
+  (XSeq (XAtom (IMatchLit false false [98]%N)) XEps)).
+Definition ex10_defs (t : nat) : option (rx * pstmts) := match t with O => Some (ex10_body, PNil) | _ => None end.
+Definition ex10_rec : rx := XSeq (XCall [115]%N 0) (XSeq (XAtom (IMatchLit false false [100]%N)) XEps).
+
+Example C10_recursion_witness : forall text start,
+  (forall t b p, ex10_defs t = Some (b, p) -> p = PNil /\ TotalRec.guarded text start ex10_defs b /\ TotalRec.callok ex10_defs b) /\
+  TotalRec.callok ex10_defs ex10_rec.
+Proof.
+  intros text start. split.
+  - intros [|t] b p H; [|discriminate]. inversion H; subst. split; [reflexivity|]. split.
+    + cbn [TotalRec.guarded ex10_body]. split; [exact I|]. right. split; [apply TotalRec.literal_consumes|].
+      cbn. repeat split; auto. eexists; reflexivity.
+    + cbn. repeat split; auto. eexists; reflexivity.
+  - cbn. repeat split; auto. eexists; reflexivity.
+Qed.
